@@ -935,6 +935,110 @@ fn structural_corpus() -> Vec<(String, ProxyClusterMeta, ReplicatorMeta, Migrati
     out
 }
 
+/// (iii) the descriptor journey: real proxies finish real migrations, report them through
+/// UMCTL INFOMGR, the coordinator's MigrationStateRespChecker parses the reports and the
+/// committer hands them to the broker that issued the migrations. Every reported descriptor must
+/// be one the broker issued (same cluster, tag kind, range list, migration epoch, addresses) and
+/// the broker must accept it: the first report of a migration commits it, later reports of the
+/// same migration (from the other side) find nothing to commit.
+pub async fn run_journey(rep: &mut Report, sub_seed: u64) {
+    use crate::syshist::{divergence, SysOp, SysRun, CLUSTER};
+    use undermoon::common::cluster::{MigrationTaskMeta, SlotRangeTag};
+    let mut rng = Rng::new(sub_seed);
+    let opts = crate::sim::ProxyOpts {
+        backend_conn_num: rng.urange(1, 2),
+        ..Default::default()
+    };
+    let mut run = SysRun::new(&mut rng, opts, "/nonexistent/c17.json");
+    for _ in 0..rng.urange(6, 9) {
+        run.apply(&mut rng, &SysOp::AddProxy).await;
+    }
+    let n0 = *rng.pick(&[4usize, 8]);
+    run.apply(&mut rng, &SysOp::CreateCluster(n0)).await;
+    let coord = crate::syssim::Coord {
+        id: run.sys.coord.id.clone(),
+        adapter: run.sys.coord.adapter.clone(),
+        port: run.sys.coord.port.clone(),
+        enable_compression: run.sys.coord.enable_compression,
+    };
+    run.rounds(&coord, 2).await;
+    let _ = coord.adapter.take_calls();
+    let target = *rng.pick(&[4usize, 8, 12]);
+    run.apply(&mut rng, &SysOp::ScaleTo(target)).await;
+    let mut issued: BTreeMap<String, String> = BTreeMap::new(); // descriptor -> tag kind
+    let mut converged = false;
+    for _ in 0..60 {
+        if let Some(c) = run.sys.broker.get_cluster_by_name(CLUSTER).await.ok().flatten() {
+            for n in c.get_nodes() {
+                for sr in n.get_slots() {
+                    let kind = match sr.tag {
+                        SlotRangeTag::Migrating(_) => "MIGRATING",
+                        SlotRangeTag::Importing(_) => "IMPORTING",
+                        SlotRangeTag::None => continue,
+                    };
+                    let d = MigrationTaskMeta { cluster_name: c.get_name().clone(), slot_range: sr.clone() }.into_strings().join(" ");
+                    issued.insert(d, kind.to_string());
+                }
+            }
+        }
+        run.rounds(&coord, 1).await;
+        if divergence(&run, &run.sys.broker).await.is_empty() {
+            converged = true;
+            break;
+        }
+    }
+    let calls = coord.adapter.take_calls();
+    rep.evaluations += 1;
+    rep.count("journeys", 1);
+    if !converged {
+        rep.count("journeys_not_converged", 1);
+    }
+    let ctx = json!({"sub_seed": sub_seed, "history": run.log, "issued": issued.keys().collect::<Vec<_>>()});
+    let mut accepted: BTreeMap<String, u64> = BTreeMap::new();
+    for c in calls.iter().filter(|c| c.name == "commit_migration" && !c.result.starts_with('@')) {
+        rep.count("journey_descriptors_reported", 1);
+        let kind = match issued.get(&c.arg) {
+            Some(k) => k.clone(),
+            None => {
+                rep.violation(
+                    "C17:reported-descriptor-was-never-issued",
+                    format!("a proxy reported '{}' through UMCTL INFOMGR but the broker never issued such a migration", c.arg),
+                    ctx.clone(),
+                );
+                continue;
+            }
+        };
+        let norm = c.arg.replacen(" MIGRATING ", " * ", 1).replacen(" IMPORTING ", " * ", 1);
+        if c.result == "ok" {
+            *accepted.entry(norm).or_insert(0) += 1;
+            rep.count(&format!("journey_{}_descriptor_committed", kind.to_lowercase()), 1);
+        } else if c.result == "err:MIGRATION_TASK_NOT_FOUND" {
+            rep.count("journey_second_report_found_nothing_to_commit", 1);
+            if !accepted.contains_key(&norm) {
+                rep.violation(
+                    format!("C17:reported-descriptor-refused-by-broker:{}:MIGRATION_TASK_NOT_FOUND", kind),
+                    format!("the broker did not find the migration of the reported descriptor '{}' although it had issued it and nobody committed it before", c.arg),
+                    ctx.clone(),
+                );
+            }
+        } else {
+            rep.violation(
+                format!("C17:reported-descriptor-refused-by-broker:{}:{}", kind, c.result.trim_start_matches("err:")),
+                format!("the broker answered {} to the descriptor '{}' reported by a proxy for a migration it had issued", c.result, c.arg),
+                ctx.clone(),
+            );
+        }
+    }
+    for (k, n) in accepted.iter() {
+        if *n > 1 {
+            rep.violation("C17:descriptor-committed-twice", format!("'{}' was accepted {} times", k, n), ctx.clone());
+        }
+    }
+    if rep.samples.len() < 4 && !accepted.is_empty() {
+        rep.sample(json!({"journey": calls.iter().filter(|c| c.name == "commit_migration" && !c.result.starts_with('@')).map(|c| format!("{} -> {}", c.arg, c.result)).collect::<Vec<_>>()}));
+    }
+}
+
 /// Small leg for the interpreter (Miri): generated round trips and the negative enumeration over
 /// the first entries of the structural corpus; no broker histories, no floors.
 pub fn run_small(rep: &mut Report, cases: u64, corpus_entries: usize) {
@@ -960,6 +1064,13 @@ pub fn run(rep: &mut Report) {
     crate::c02::run_sharded(rep, hist, 16, move |local, sub, rt| {
         rt.block_on(run_broker_views(local, sub, 60));
     });
+    // (iii)
+    let journeys: u64 = if thorough { 1500 } else { 64 };
+    crate::c02::run_sharded(rep, journeys, 16, move |local, sub, rt| {
+        crate::run_guarded!(rt, local, "C17", sub, 1_000_000u64, run_journey(local, sub ^ 0x7017));
+    });
+    rep.floor("journey_migrating_descriptor_committed", 10);
+    rep.floor("journey_importing_descriptor_committed", 10);
     // (ii)
     let cases: u64 = if thorough { 300_000 } else { 20_000 };
     for i in 0..cases {
